@@ -21,15 +21,15 @@ ASSUMPTIONS = ["a member 'has been told' generation g once the SyncGroup reply f
                "a Heartbeat between stop() and the LeaveGroup is tolerated; JoinGroup/SyncGroup after stop() are not",
                "progress committed before a rejoin is judged only for rejoins that were not caused by an eviction, "
                "and a commit the coordinator rejected or never answered exempts the partition"]
-REACH_MIN = {"rebalances_after_first": {"quick": 150, "thorough": 4000},
-             "joins_with_previous_consumers": {"quick": 100, "thorough": 3000},
-             "progress_commits_checked": {"quick": 60, "thorough": 2000},
-             "evictions_seen": {"quick": 40, "thorough": 1000},
-             "heartbeats_checked": {"quick": 2000, "thorough": 50000},
-             "commits_checked": {"quick": 400, "thorough": 10000},
-             "stops_checked": {"quick": 25, "thorough": 700},
-             "leader_assignments_checked": {"quick": 150, "thorough": 4000},
-             "start_positions_checked": {"quick": 200, "thorough": 5000}}
+REACH_MIN = {"rebalances_after_first": {"quick": 150, "thorough": 1443},
+             "joins_with_previous_consumers": {"quick": 100, "thorough": 962},
+             "progress_commits_checked": {"quick": 60, "thorough": 577},
+             "evictions_seen": {"quick": 40, "thorough": 384},
+             "heartbeats_checked": {"quick": 2000, "thorough": 19243},
+             "commits_checked": {"quick": 400, "thorough": 3848},
+             "stops_checked": {"quick": 25, "thorough": 240},
+             "leader_assignments_checked": {"quick": 150, "thorough": 1443},
+             "start_positions_checked": {"quick": 200, "thorough": 1924}}
 
 CONSUMER_APIS = ("Fetch", "OffsetFetch", "ListOffsets", "OffsetCommit")
 
